@@ -114,6 +114,7 @@ class Env:
         self.phys_poly = {}  # key -> (coef array [comps, nmono], ) physical-space polynomial (continuous two-sided fields)
         self.degree_of = None  # optional callable(form argument) -> polynomial degree per reference component
         self.integer_coeffs = False
+        self.physical_fields = False  # every form argument is a polynomial in the *physical* coordinates (C24)
 
     def rng(self, key):
         return np.random.default_rng([self.seed, zlib.crc32(key.encode())])
@@ -473,14 +474,17 @@ class Interp:
             return self.const(np.asarray(env.fixed[k]).reshape(rs))
         ncomp = int(np.prod(rs, dtype=int))
         is_const = el.embedded_superdegree == 0
-        if self.two_sided and self.continuous is not None and self.continuous(f):
+        if env.physical_fields or (self.two_sided and self.continuous is not None and self.continuous(f)):
             # physical-space polynomial shared by both sides; '-' side differs by d(x) * g(x) (equal trace)
             exps, mono = self._monomials(side, True)
             C = self.envs["+"].rand("pp:" + rep, (ncomp, len(exps)))
+            if env.degree_of is not None:
+                degs = np.asarray(env.degree_of(f)).reshape(-1)
+                C = C * np.array([[1.0 if sum(m) <= degs[c] else 0.0 for m in exps] for c in range(ncomp)])
             if is_const:
                 C = C * np.array([1.0 if sum(m) == 0 else 0.0 for m in exps])
             v = np.tensordot(mono, C, axes=(1, 1))  # (M, ncomp)
-            if side == "-" and not is_const:
+            if side == "-" and not is_const and self.two_sided:
                 ep = self.envs["+"]
                 n = ep.geo.facet_normal(ep.facet)
                 x_f = ep.geo.facet_vertices(ep.facet)[0]
